@@ -12,7 +12,10 @@ def real_transports(res):
     a real ApplicationSession on a real client transport against the scripted router; WampSessionTrace.TInvReal judges the wire"""
     cases = [[k, s, b, a, rp] for k in ("ws", "rs") for s in ("json", "msgpack", "cbor") for b in BEHS for a in (False, True) for rp in (False, True)]
     # the variant of each behaviour (which CallResult shape, which exception class, a value exactly at / one past the size limit)
-    cases = [c + [i // 2 + res.seed] for i, c in enumerate(cases)]
+    cases = [c + [i // 2 + res.seed, False] for i, c in enumerate(cases)]
+    # ... and the same with the invocation arriving end-to-end encrypted (the replies must be, too; what cannot be encrypted is an ERROR)
+    cases += [[k, s, b, a, rp, v, True] for k in ("ws", "rs") for s in ("json", "cbor") for b in BEHS for a in (False, True) for rp in (False,)
+              for v in (res.seed, res.seed + 1)]
     jobs = [("invreal_drv", [], common.driver_env(fw=fwn, seed=res.seed), dict(cases=cases)) for fwn in ("tx", "aio")]
     outs = common.run_drivers_parallel(jobs)
     traces, meta = [], []
@@ -22,7 +25,7 @@ def real_transports(res):
             traces.append(t)
             meta.append(o["fw"])
             e = t[0]
-            res.distinct_key([o["fw"], "real", e["kind"], e["ser"], e["beh"], e["isAsync"], e["rp"], e["var"] % 12])
+            res.distinct_key([o["fw"], "real", e["kind"], e["ser"], e["beh"], e["isAsync"], e["rp"], e["var"] % 12, e["keyed"]])
     v = tlc.validate_traces("WampSessionTrace", "WampSessionTrace.cfg", traces, shards=4)
     res.traces += v["n"]
     for idx, l in v["rejected"][:25]:
